@@ -27,6 +27,12 @@ def cases(tier):
         out.append(Case('c18.md5.pad.n%d' % n, 'md5.c', {'VF_MODE': 2, 'VF_N': n}, unwind=n + 140, checks='safety', safety_owner='C18', timeout=600,
                         instrument=[['--replace-calls', 'MD5Transform:vf_md5_T']], funcs=MD5F,
                         desc='init/update/pad/final of a %d-byte message: blocks fed == RFC 1321 padding, digest == LE(state), compression function abstracted on both sides' % n))
+    # streaming: the message fed in two MD5Update calls (a partial block buffered by the first call is completed by the second)
+    splits = [(1, 64), (37, 27), (37, 91), (63, 65), (64, 64), (5, 128)] if tier == 'quick' else [(a, b) for a in (1, 8, 37, 55, 56, 63, 64, 65) for b in (1, 27, 63, 64, 65, 91, 128, 129)]
+    for (a, b) in splits:
+        out.append(Case('c18.md5.stream.a%d.b%d' % (a, b), 'md5.c', {'VF_MODE': 4, 'VF_N': a + b, 'VF_A': a}, unwind=a + b + 140, checks='safety', safety_owner='C18', timeout=600,
+                        instrument=[['--replace-calls', 'MD5Transform:vf_md5_T']], funcs=MD5F,
+                        desc='MD5Init; MD5Update(%d bytes); MD5Update(%d bytes); MD5Final: blocks fed == RFC 1321 padding of the concatenation (compression function abstracted on both sides)' % (a, b)))
     for n in mx['MD5E2E']:
         out.append(Case('c18.md5.e2e.n%d' % n, 'md5.c', {'VF_MODE': 3, 'VF_N': n}, unwind=n + 140, checks='func', backend='z3', timeout=1500, mem_gb=12,
                         funcs=MD5F + ['MD5Transform'], desc='end-to-end qhashmd5 == RFC 1321 MD5 for all %d-byte messages (cross-check of the composition)' % n))
